@@ -166,9 +166,9 @@ def main(ck):
         obl = os.path.join(ck.bdir, "LockObligations.v")
         open(obl, "w").write(pre + body + "\n"
                              "Lemma vm_table_well_locked : well_locked vm_table = true.\nProof. vm_compute. reflexivity. Qed.\n"
-                             "Theorem vm_race_free : forall progs sched, Forall (from_table vm_table) progs -> ~ race (Lock.run (init_state progs) sched).\n"
+                             "Theorem vm_race_free : forall progs sched, Forall (from_table vm_table) progs -> ~ race (LockDiscipline.run (init_state progs) sched).\n"
                              "Proof. exact (well_locked_race_free_l vm_table vm_table_well_locked). Qed.\n"
-                             "Theorem vm_mutual_exclusion : forall progs sched, Forall (from_table vm_table) progs -> excl_alone (Lock.run (init_state progs) sched).\n"
+                             "Theorem vm_mutual_exclusion : forall progs sched, Forall (from_table vm_table) progs -> excl_alone (LockDiscipline.run (init_state progs) sched).\n"
                              "Proof. exact (well_locked_mutex_l vm_table vm_table_well_locked). Qed.\n"
                              "Lemma vm_skeleton_ok : skeleton_check vm_fields vm_table = [].\nProof. vm_compute. reflexivity. Qed.\n"
                              "Print Assumptions vm_race_free.\n")
